@@ -212,7 +212,7 @@ def concretise(prog, pid, rnd, opts):
     cc = dict(proxy=c["proxy"], puser="user1" if c["puser"] else "", ppass="p4ss w0rd:x" if c["ppass"] else "",
               haspass=bool(c["ppass"]), phost=c["phost"], pport=c["pport"], nd=c["nd"], ndc=c["ndc"], ndtc=c["ndtc"],
               subs=list(c["subs"]), comp=c["comp"], tmo=c["tmo"], jar=c["jar"], loop=loop, loopport=port,
-              notlscfg=False, rbuf=c.get("rbuf", 0))
+              notlscfg=False, rbuf=c.get("rbuf", 0), trace=bool(c.get("trace", False)))
     out = []
     prev_hosts = []
     for d in dials:
